@@ -11,6 +11,7 @@ import (
 	"testing"
 	"time"
 
+	"github.com/olric-data/olric/internal/cluster/partitions"
 	"github.com/olric-data/olric/internal/verifhook"
 	"github.com/olric-data/olric/internal/zzverif/vcommon"
 	"pgregory.net/rapid"
@@ -24,6 +25,7 @@ type c02Op struct {
 	Role  string `json:"role,omitempty"`  // primary backup coordinator bystander (relative to key K)
 	Kind  string `json:"kind,omitempty"`  // leave kill
 	Point string `json:"point,omitempty"` // "" = between operations; put.afterBackup put.beforeLocal del.afterPrev del.afterBackups = inside the next write of key K
+	Burst int    `json:"burst,omitempty"` // kill between operations: this many Puts (keys K, K+1, ...) are issued at once, before the cluster has noticed
 }
 
 type c02Case struct {
@@ -63,6 +65,9 @@ func genC02(t *rapid.T) *c02Case {
 				op.Role = rapid.SampledFrom([]string{"primary", "primary", "backup", "backup", "coordinator", "bystander"}).Draw(t, "role")
 				op.Kind = rapid.SampledFrom([]string{"leave", "kill", "kill"}).Draw(t, "kind")
 				op.Point = rapid.SampledFrom([]string{"", "", "", "put.afterBackup", "put.beforeLocal", "del.afterPrev", "del.afterBackups"}).Draw(t, "point")
+				if op.Kind == "kill" && op.Point == "" {
+					op.Burst = rapid.SampledFrom([]int{0, 3, 8}).Draw(t, "burst")
+				}
 			}
 		}
 		c.Ops = append(c.Ops, op)
@@ -74,6 +79,10 @@ type c02Key struct {
 	admissible map[string]bool // values the key may hold; "" = absent
 	asserted   bool            // last acknowledged write happened with >= R members present
 	everSet    bool
+	// bookkeeping for telling the two recorded findings (KNOWN_FINDINGS.txt) from anything else:
+	cur            string          // the value of the last acknowledged Put ("" after an acknowledged Delete)
+	held           map[string]bool // members seen holding a copy of cur since that Put was acknowledged
+	delRearranging bool            // the last acknowledged Delete ran after a stop, while the partition's owner lists were being re-arranged
 }
 
 func runC02(c *c02Case) (v *vcommon.Violation, nontrivial, inconclusive bool) {
@@ -171,6 +180,7 @@ func runC02(c *c02Case) (v *vcommon.Violation, nontrivial, inconclusive bool) {
 		verifhook.Set(p, handler(p))
 	}
 
+	var classify func(i int, got string) string
 	checkAll := func(where string) *vcommon.Violation {
 		for i, k := range keys {
 			if !k.asserted {
@@ -189,7 +199,22 @@ func runC02(c *c02Case) (v *vcommon.Violation, nontrivial, inconclusive bool) {
 					return bad("read-error", "%s: Get(%s) from %s failed: %s", where, keyName(i), m.name, r.err)
 				}
 				if !k.admissible[got] {
-					return bad("lost-or-rolled-back", "%s: key %s reads %q from %s; admissible after the acknowledged history: %v (R=%d, %d members stopped)", where, keyName(i), got, m.name, keysOf(k.admissible), c.R, stopsDone)
+					// where the copies are and who is listed for the partition, as every survivor sees it
+					var diag []string
+					hkey := partitions.HKey(name, keyName(i))
+					for _, mm := range cl.live() {
+						var own, bak []string
+						for _, o := range mm.db.primary.PartitionOwnersByHKey(hkey) {
+							own = append(own, o.Name)
+						}
+						for _, o := range mm.db.backup.PartitionOwnersByHKey(hkey) {
+							bak = append(bak, o.Name)
+						}
+						diag = append(diag, fmt.Sprintf("%s: primary copy %q backup copy %q; lists owners %v backups %v", mm.name,
+							decodeCopy(mm.db.dmap.VerifRaw(name, keyName(i), partitions.PRIMARY)).value, decodeCopy(mm.db.dmap.VerifRaw(name, keyName(i), partitions.BACKUP)).value, own, bak))
+					}
+					hist = append(hist, diag...)
+					return bad(classify(i, got), "%s: key %s reads %q from %s; admissible after the acknowledged history: %v (R=%d, %d members stopped)", where, keyName(i), got, m.name, keysOf(k.admissible), c.R, stopsDone)
 				}
 				if mi == 0 {
 					first = got
@@ -201,11 +226,114 @@ func runC02(c *c02Case) (v *vcommon.Violation, nontrivial, inconclusive bool) {
 		return nil
 	}
 
+	// diagnostic: which survivor holds a primary (P) / backup (B) copy of every key
+	copiesOf := func() string {
+		var out []string
+		for i := range keys {
+			var hs []string
+			for _, mm := range cl.live() {
+				port := mm.name[strings.LastIndex(mm.name, ":")+1:]
+				if mm.db.dmap.VerifCheck(name, keyName(i), partitions.PRIMARY) {
+					hs = append(hs, "P@"+port)
+				}
+				if mm.db.dmap.VerifCheck(name, keyName(i), partitions.BACKUP) {
+					hs = append(hs, "B@"+port)
+				}
+			}
+			var rt []string
+			if lv := cl.live(); len(lv) > 0 {
+				hkey := partitions.HKey(name, keyName(i))
+				for _, o := range lv[0].db.primary.PartitionOwnersByHKey(hkey) {
+					rt = append(rt, "o"+o.Name[strings.LastIndex(o.Name, ":")+1:])
+				}
+				for _, o := range lv[0].db.backup.PartitionOwnersByHKey(hkey) {
+					rt = append(rt, "b"+o.Name[strings.LastIndex(o.Name, ":")+1:])
+				}
+			}
+			views := map[string]bool{}
+			var vs []string
+			for _, mm := range cl.live() {
+				var one []string
+				hkey := partitions.HKey(name, keyName(i))
+				for _, o := range mm.db.primary.PartitionOwnersByHKey(hkey) {
+					one = append(one, "o"+o.Name[strings.LastIndex(o.Name, ":")+1:])
+				}
+				for _, o := range mm.db.backup.PartitionOwnersByHKey(hkey) {
+					one = append(one, "b"+o.Name[strings.LastIndex(o.Name, ":")+1:])
+				}
+				s := strings.Join(one, ",")
+				views[s] = true
+				vs = append(vs, mm.name[strings.LastIndex(mm.name, ":")+1:]+"sees("+s+")")
+			}
+			differ := ""
+			if len(views) > 1 {
+				differ = "VIEWS-DIFFER:" + strings.Join(vs, ";")
+			}
+			out = append(out, fmt.Sprintf("%d:%s[%s]%s", i, strings.Join(hs, ","), strings.Join(rt, ","), differ))
+		}
+		return strings.Join(out, " ")
+	}
+	// noteHolders records which members hold a copy of key i's current value right now
+	noteHolders := func(i int) {
+		k := keys[i]
+		if k.cur == "" {
+			return
+		}
+		if k.held == nil {
+			k.held = map[string]bool{}
+		}
+		for _, mm := range cl.live() {
+			for _, kind := range []partitions.Kind{partitions.PRIMARY, partitions.BACKUP} {
+				if rc := decodeCopy(mm.db.dmap.VerifRaw(name, keyName(i), kind)); rc.present && string(rc.value) == k.cur {
+					k.held[mm.name] = true
+				}
+			}
+		}
+	}
+	noteAllHolders := func() {
+		for i := range keys {
+			noteHolders(i)
+		}
+	}
+	// rearranging: the partition of key i lists previous owners or more backup owners than the replica count asks
+	// for (hand-overs pending), or the members do not agree on its owner lists yet
+	rearranging := func(i int) bool {
+		hkey := partitions.HKey(name, keyName(i))
+		views := map[string]bool{}
+		for _, mm := range cl.live() {
+			po, bo := mm.db.primary.PartitionOwnersByHKey(hkey), mm.db.backup.PartitionOwnersByHKey(hkey)
+			if len(po) > 1 || len(bo) > c.R-1 {
+				return true
+			}
+			views[fmt.Sprint(po, bo)] = true
+		}
+		return len(views) > 1
+	}
+	// classify names the mechanism of a wrong read of key i when it is one of the two recorded ones
+	classify = func(i int, got string) string {
+		k := keys[i]
+		if len(k.admissible) == 1 && k.admissible[""] && got != "" {
+			if k.delRearranging {
+				return "resurrected:delete-while-owner-lists-rearranged"
+			}
+			return "resurrected"
+		}
+		for _, mm := range cl.live() {
+			if k.held[mm.name] {
+				return "lost:survivor-gave-its-copy-away"
+			}
+		}
+		return "lost-or-rolled-back"
+	}
 	for i, op := range c.Ops {
 		step = i
 		live := cl.live()
 		key := keyName(op.K)
 		k := keys[op.K]
+		if op.Op == "stop" {
+			noteAllHolders()
+			hist = append(hist, fmt.Sprintf("%d   copies before the stop: %s", i, copiesOf()))
+		}
 		switch op.Op {
 		case "stop":
 			var victim *vMember
@@ -282,6 +410,27 @@ func runC02(c *c02Case) (v *vcommon.Violation, nontrivial, inconclusive bool) {
 				}
 			} else if op.Kind == "kill" {
 				cl.kill(victim)
+				// writes issued before the failure detector has noticed: R members or more are still present and
+				// healthy, so what is acknowledged now is covered as well
+				survivors := cl.live()
+				for j := 0; j < op.Burst && len(survivors) > 0; j++ {
+					kk := (op.K + j) % c.Keys
+					k2 := keys[kk]
+					m := survivors[(op.Member+j)%len(survivors)]
+					val := fmt.Sprintf("v%d-%d", i, j)
+					r, _ := exec(m, "put", keyName(kk), val)
+					hist = append(hist, fmt.Sprintf("%d   put(%s,%q) via %s right after the kill -> %q", i, keyName(kk), val, m.name, r.err))
+					if r.err == "" {
+						k2.admissible = map[string]bool{val: true}
+						k2.asserted = len(survivors) >= c.R
+						k2.everSet = true
+						nontrivial = true
+						k2.cur, k2.held, k2.delRearranging = val, nil, false
+						noteHolders(kk)
+					} else {
+						k2.admissible[val] = true
+					}
+				}
 			} else {
 				cl.stop(victim)
 			}
@@ -300,6 +449,7 @@ func runC02(c *c02Case) (v *vcommon.Violation, nontrivial, inconclusive bool) {
 					return nil, nontrivial, true
 				}
 			}
+			hist = append(hist, fmt.Sprintf("%d   copies after the stop: %s", i, copiesOf()))
 			if v := checkAll(fmt.Sprintf("after stopping %s (%s)", victim.name, op.Kind)); v != nil {
 				return v, nontrivial, false
 			}
@@ -311,6 +461,9 @@ func runC02(c *c02Case) (v *vcommon.Violation, nontrivial, inconclusive bool) {
 			}
 			r, ok := exec(m, op.Op, key, val)
 			hist = append(hist, fmt.Sprintf("%d %s(%s,%q) via %s -> %q", i, op.Op, key, val, m.name, r.err))
+			if op.Op == "del" && stopsDone > 0 {
+				hist = append(hist, fmt.Sprintf("%d   copies after the delete: %s", i, copiesOf()))
+			}
 			if !ok {
 				return nil, nontrivial, true
 			}
@@ -346,7 +499,27 @@ func runC02(c *c02Case) (v *vcommon.Violation, nontrivial, inconclusive bool) {
 				return bad("read-error", "Get(%s) from %s failed: %s", key, m.name, r.err), nontrivial, false
 			}
 			if k.asserted && !k.admissible[got] {
-				return bad("lost-or-rolled-back", "key %s reads %q from %s; admissible after the acknowledged history: %v (R=%d, %d members stopped)", key, got, m.name, keysOf(k.admissible), c.R, stopsDone), nontrivial, false
+				hist = append(hist, fmt.Sprintf("%d   copies at the failing read: %s", i, copiesOf()))
+				return bad(classify(op.K, got), "key %s reads %q from %s; admissible after the acknowledged history: %v (R=%d, %d members stopped)", key, got, m.name, keysOf(k.admissible), c.R, stopsDone), nontrivial, false
+			}
+		}
+		// bookkeeping for classify: a new certain value starts a new holder set; an acknowledged Delete remembers
+		// whether the partition's owner lists were in motion
+		for ki, kk := range keys {
+			if len(kk.admissible) != 1 {
+				kk.cur, kk.held, kk.delRearranging = "", nil, false
+				continue
+			}
+			var only string
+			for v := range kk.admissible {
+				only = v
+			}
+			if only != kk.cur || (only == "" && op.Op == "del" && ki == op.K) {
+				kk.cur, kk.held = only, nil
+				kk.delRearranging = only == "" && stopsDone > 0 && rearranging(ki)
+			}
+			if op.Op != "get" && ki == op.K || op.Op == "stop" {
+				noteHolders(ki)
 			}
 		}
 	}
